@@ -221,7 +221,11 @@ class X12Base(object):
         # take '+4', ' 4', '0_4' and digits of other scripts
         if not isinstance(str_val, str) or re.match(r'-?[0-9]+\Z', str_val) is None:
             return None
-        return int(str_val)
+        try:
+            return int(str_val)
+        except ValueError:
+            # more digits than the interpreter converts: no count or sequence number is that long
+            return None
 
     def get_isa_id(self):
         """
